@@ -317,6 +317,44 @@ def load_known():
 
 
 # ---------------------------------------------------------------------------- the generic driver
+SEARCH_BUDGET_S = int(os.environ.get("VERIF_SEARCH_BUDGET", "240"))
+
+
+def generic_search(mod, ctx, known, classes):
+    """Alarm path only (a theorem, the translator or the correspondence broke, and no case of this run fails the
+    spec): look for a concrete input on which the IMPLEMENTATION now violates the property.  The deep generator
+    (thorough tier, two further seeds) is run in chunks against the real code and Coq evaluates the spec on
+    each observed output, until a failing case is found or the wall-clock budget is used up.
+    Returns (case, obs) or None."""
+    pid = mod.PID
+    t_end = time.time() + SEARCH_BUDGET_S
+    for extra in (1, 2):
+        sctx = Ctx(pid, "thorough", ctx.seed + extra)
+        try:
+            cases = mod.generate(sctx)
+        except Exception:
+            return None
+        random.Random(ctx.seed + extra).shuffle(cases)
+        for k in range(0, len(cases), 1600):
+            if time.time() > t_end:
+                return None
+            chunk = cases[k:k + 1600]
+            try:
+                observed = observe_all(mod, chunk)
+                terms = [mod.coq_case(c, o) for c, o in zip(chunk, observed)]
+            except Exception:
+                return None
+            results, _errors = eval_cases(pid, mod.IMPORTS, mod.CASE_TYPE, mod.RUNNER, terms, tag="search")
+            for i, c in sorted(results):
+                if c == 2:
+                    return chunk[i], observed[i]
+                if c >= 10:
+                    ent = known.get((pid, c - 10))
+                    if ent is None or ent.get("status") != "open":
+                        return chunk[i], observed[i]
+    return None
+
+
 class Ctx:
     def __init__(self, pid, tier, seed):
         self.pid, self.tier, self.seed = pid, tier, seed
@@ -446,6 +484,8 @@ def run_property(mod, ctx, replay_case=None):
         found = None
         if replay_case is None and hasattr(mod, "search") and not corr_unavailable:
             found = mod.search(ctx, [cases[i] for i in bad_model[:20]])
+        if found is None and replay_case is None and not corr_unavailable:
+            found = generic_search(mod, ctx, known, classes)
         if found is not None:
             case, obs = found
             path = write_replay(pid, "spec", {"property": pid, "kind": "property-fails-on-implementation (found by search)",
